@@ -39,7 +39,7 @@ def examples(tier):
 def strategy(draw, tier="quick"):
     regime = draw(st.sampled_from(REGIMES))
     shape = "nonrecursive" if regime in ("QQ", "FREE") else None
-    g = draw(gen.grammar(regimes=[regime], shape=shape, **gen.size(tier)))
+    g = draw(gen.grammar(regimes=[regime], shape=shape, signed=True, **gen.size(tier)))
     # calls made on the same grammar object *before* the totals are asked for: they fill the object's
     # caches (trimmed copy, normal forms) or run the same computation with loose settings
     warm = draw(st.lists(st.sampled_from(WARM), max_size=3)) if draw(st.booleans()) else []
@@ -144,7 +144,7 @@ def check(case, ctx):
             longest = _max_len(g)
             if longest <= 6:
                 ctx.eq("treesum=sum_strings", M, ts, part, what="finite language")
-    elif not M.idempotent and M.name in ("FLOAT", "REAL"):
+    elif not M.idempotent and M.name in ("FLOAT", "REAL") and not g.get("signed"):  # partial sums are monotone only for non-negative weights
         if not isinstance(ts, LibRaised):
             ctx.check("treesum>=partial", M.from_lib(ts) >= part - 1e-9, lambda: f"treesum {ts} below the partial sum {part} of strings up to length {n}")
 
